@@ -1,72 +1,102 @@
 """C19 - parser combinators implement ordered-choice PEG semantics.
 
-Three exhaustive explorations against the real code:
+Exhaustive explorations against the real code:
 
-  terms    every grammar term with <= N nodes over a 10-leaf / 9-unary / 10-binary alphabet, built
-           with the library's own operators (so the accumulating `+` / `|` are exercised, with and
-           without Wrapper), run on every input over {a,b,A} of length <= 4 through the documented
-           process(pos, data, ctx) protocol on a fresh Context (and through __call__ for the smaller
-           terms), compared with a reference PEG interpreter (ref/c19_peg.py) on accept/reject, end
-           position and value.  (term, input) pairs on which the reference applies a repetition to a
-           sub-term that succeeds without consuming are outside the quantifier and skipped.  The
-           implementation runs under a budget (process() calls counted through a Context subclass,
-           plus a CPU-time alarm), so non-termination is a reported divergence and not a hang.
+  terms    every grammar term with <= N nodes over a CORE alphabet (10 leaves, 10 unary, 11 binary
+           constructors: Char, InSet, String, Literal (plain / ignore_case / value=), AnyChar, EOF; Many with
+           lower 0/1/2, Opt with default None / "D", Map (total function whose image contains None, 0, ""),
+           Map and Lift (1 and 2 arguments) whose function raises Backtrack, Wrapper, PosMarker; + | << >>
+           & /, Until, Lift, sep_by, one Forward recursion) and every term with <= N-1 nodes that contains
+           an EXTENDED symbol (Literal value=None, Many lower=3, Opt default 0, `% name`, debug(), the same
+           parser OBJECT used twice in a sequence / re-tried in a second alternative).  Terms are built
+           with the library's own operators (so the accumulating `+` / `|` are exercised, with and without
+           Wrapper).  ONE parser object per term is run on every input over {a,b,A} of length <= 4 (plus
+           every input over {a, newline} with a newline for terms containing PosMarker) through the
+           documented process(pos, data, ctx) protocol on a fresh Context, through __call__ (all inputs
+           for the smaller terms, inputs of length <= 2 for the largest), and - smaller terms - a second
+           time in reverse order; every result is compared with a reference PEG interpreter
+           (ref/c19_peg.py) on accept/reject, end position and value (type-strict: 0 is not None is not
+           "" is not []).  (term, input) pairs on which the reference applies a repetition to a sub-term
+           that succeeds without consuming are outside the quantifier and skipped.  The implementation
+           runs under a budget (process() calls counted through a Context subclass, plus a CPU-time
+           alarm), so non-termination is a reported divergence and not a hang.
   json     every JSON value of depth <= 3 over {0, 7, -3, 2.5, "s", "", "a\"b", true, false, null,
            [], {}}, four whitespace renderings (compact, json.dumps default, indented, padded = JSON
            whitespace around every token), insights.parsr.examples.json_parser.loads vs json.loads
+  jsonx    duplicate keys, 3-4 elements, strings made of structural characters, multi-digit numbers,
+           nesting up to 12 (30) deep - through loads() and load(file)
+  jsonedit every depth <= 2 document with one token deleted or one comma inserted: what json.loads
+           rejects must be rejected, what it still accepts must mean the same
   taglang  every tag expression AST of depth <= 3 (bare / quoted tags, regex atoms, ! & | ,), up to
-           four renderings (minimal or full parentheses x with or without optional spaces), all 8
-           tag sets over {a,b,c}, insights.core.taglang.parse vs Boolean evaluation of the AST
-           under  ! > & > | = ,
+           four renderings (minimal or full parentheses x with or without optional spaces), 11 tag
+           sets (the 8 subsets of {a,b,c} and three with tags that extend a, b), asked as pred(list)
+           and pred.test(set), insights.core.taglang.parse vs Boolean evaluation under  ! > & > | = ,
+  tagx     atoms that are prefixes of each other / contain operator characters or blanks in quotes /
+           regex metacharacters, on all 64 subsets of their universe; parentheses and negations
+           nested 8 deep
+  tagedit  every depth <= 2 expression with one token deleted, "", blanks only, dangling operators:
+           malformed text must be rejected, text that stays well-formed must mean what its tokens say
 
 The reference interpreter is cross-checked against a second formulation (bottom-up tabular
 evaluation) on a stated sub-space in every run; a disagreement is a harness error, not a verdict.
 
-What the oracle deliberately does not demand (weaker readings, DESIGN.md section 3):
-  * sep_by is read by its definition  Opt(x) then Many(sep >> x)  - so a leading separator is
-    accepted, as the code does - with value = the values of the matched instances.  A first
-    instance whose value is None may be missing from the list (None is the library's "no value");
-    a first instance with another falsy value (0, "", []) may not.
+State and histories: the schedule above runs ~250 operations on one parser object; a disagreement is
+re-decided on a fresh object, then after the operations that preceded it on the same object, then
+after the earlier grammars of the unit in the same process (every unit runs in a forked child that
+has never run a parser, which is the state a fresh replay starts from); the first variant that
+reproduces it is the recorded case.
+
+What the oracle deliberately does not demand (DESIGN.md section 3):
   * no space is put between `!` and its operand in tag expressions (the docs never show one), and
     an unquoted regex atom is always followed by a space (documented: it runs to the next blank).
-  * JSON documents that json.loads rejects are not generated (leading zeros, `[,1]`, single quotes...).
+  * JSON texts outside the documented subset are not generated: leading zeros, single-quoted strings,
+    backslash escapes other than \", exponents, non-ASCII.
+  * the side-stack combinators StartTagName / EndTagName / WithIndent / HangingString (not in the
+    statement's list; the INI grammar built on them is C15's), Map / Lift functions raising something
+    other than Backtrack (documented to abort the parse), the TEXT of error messages.
 
-On the unchanged tree the check reports four defect families (findings-draft/C19.json); each
-violation carries features that say which structural trigger is present *and* whether the
-observation is fully explained by the listed triggers (a violation that is not explained that way
-never matches a finding):
-  * the JSON grammar rejects the empty string literal ""                       (value or key)
-  * sep_by drops a falsy first instance: JSON [0] -> [], [false, 1] -> [1]     (json + terms)
-  * the JSON grammar rejects whitespace inside an empty container  [ ]  { }    (padded rendering)
-  * the JSON grammar rejects whitespace between a key and the colon            (padded rendering)
+sep_by is read by its docstring, "zero or more instances of the current parser separated by instances
+of sep": x (sep x)* or nothing.  On the unchanged tree its definition Opt(x) then Many(sep >> x) also
+consumes "sep x" when no instance precedes the separator; that is reported (findings-draft/C19.json)
+under a clause of its own, only when the definitional expansion explains the observation completely,
+and as `[,7]` -> [7] in the JSON grammar.
 """
 import io
 import itertools
 import json
+import os
+import pickle
 import re
 import signal
+import traceback
 
-from mc.result import Result
+from mc.result import Result, canon_json
 from mc import enumx
 from ref import c19_peg as peg
 
 ID = "C19"
 LEVEL = "exploration"
-RULE = ("terms: all grammar terms with <= N nodes (10 leaves, 9 unary, 10 binary constructors incl. one Forward "
-        "recursion) x all 121 inputs over {a,b,A} of length <= 4, minus the pairs on which the reference applies a "
-        "repetition to a sub-term that succeeds without consuming (outside the quantifier); non-trivial = the "
-        "reference evaluation absorbed at least one failure (a choice/option/repetition/look-ahead continued after "
-        "a failed sub-term, i.e. backtracking happened) on a non-empty input. json: all values of depth <= 3 "
-        "(bounded width) x 4 whitespace renderings; non-trivial = the value is a container. taglang: all ASTs of "
-        "depth <= 3 x distinct renderings x 8 tag sets; non-trivial = the AST has >= 2 operators of different "
-        "precedence levels (precedence decides the meaning)")
+RULE = ("terms: all grammar terms with <= N nodes over the core alphabet (10 leaves, 10 unary, 11 binary constructors "
+        "incl. Lift/Map with Backtrack and one Forward recursion) and all terms with <= N-1 nodes containing an extended "
+        "symbol (None-valued literal, Many lower=3, Opt default 0, naming, debug(), one parser object used twice) x all "
+        "121 inputs over {a,b,A} of length <= 4 (+ 26 inputs with newlines for PosMarker terms), minus the pairs on "
+        "which the reference applies a repetition to a sub-term that succeeds without consuming (outside the "
+        "quantifier); one evaluation = one (term, input) pair through process(); __call__ and second-pass runs on the "
+        "same parser object are counted separately; non-trivial = the reference evaluation absorbed at least one failure "
+        "(a choice/option/repetition/look-ahead continued after a failed sub-term, i.e. backtracking happened) on a "
+        "non-empty input. json: all values of depth <= 3 (bounded width) x 4 whitespace renderings, plus closed families "
+        "of wider / deeper / duplicate-key / special-scalar documents and single-token edits; non-trivial = the value is "
+        "a container. taglang: all ASTs of depth <= 3 x distinct renderings x 11 tag sets, plus special atoms, deep "
+        "nesting and single-token deletions; non-trivial = the AST has >= 2 operators of different precedence levels")
 ASSUMPTIONS = [
     "ref/c19_peg.py states the meaning of each combinator as documented in insights/parsr/__init__.py; it is "
     "cross-checked against an independent bottom-up tabular formulation on a sub-space in every run",
-    "sep_by is read by its definition Opt(x) + Many(sep >> x) with value = values of the matched instances; a "
-    "first instance whose value is None may be dropped (weaker reading: None is the library's 'no value')",
+    "sep_by is read by its docstring: instances of x separated by sep, x (sep x)* or nothing, value = the values of "
+    "the matched instances (None, 0, '' and [] included)",
     "json.loads is the meaning of a JSON document; the documented subset is ASCII, no exponent, no leading zeros, "
-    "no escapes other than \\\"",
+    "double-quoted strings, no escapes other than \\\"",
+    "a tag expression is malformed iff its token list does not derive from expr := term ((|/,) term)*, "
+    "term := factor (& factor)*, factor := [!] (atom | '(' expr ')')",
     "bounded: no counterexample within the stated term size / input length / value depth, nothing more",
 ]
 
@@ -1270,90 +1300,196 @@ def unit_weight(u):
     return {"terms": 3, "xref": 2, "taglang": 2}.get(u["part"], 1)
 
 
-def run_unit(unit, tier):
-    res = Result()
-    part = unit["part"]
-    b = BOUNDS[tier]
-
-    if part == "terms":
-        terms = all_terms(b["term_nodes"])
-        FAILV = peg.FAIL
-        budget_ctx()                    # imports happen outside the CPU guard
-        hist = {"tier": tier, "lo": unit["lo"]}
-        hangs = 0
-        for ti in range(unit["lo"], unit["hi"]):
-            t = terms[ti]
-            size = term_size(t)
-            res.maxi("term_nodes_completed", size)
-            ops, exps, absorbed, skipped = schedule(t, size, tier)
-            if skipped:
-                res.stat("pairs_skipped_repetition_over_nonconsuming", skipped)
-            if id(t) in _EXT_IDS:
-                res.stat("terms_with_extended_symbols", 1)
-            res.evals += len(exps)
-            res.nontrivial += sum(1 for s in exps if s and absorbed[s])
-            res.stat("call_evaluations", sum(1 for o in ops if o[0] == "call"))
-            res.stat("second_pass_evaluations", len(ops) - len(exps) - sum(1 for o in ops if o[0] == "call"))
-            pending = []                # indices into ops that disagreed; decided on the slow path below
-            hung = False
-            k = 0
+def _in_child(fn, *args):
+    """Runs fn(*args) in a forked child and returns its (picklable) result.  The calling process has
+    imported the library but NEVER runs a parser itself, so every child starts from exactly the module
+    state a replay in a fresh interpreter starts from.  That is what makes a disagreement caused by
+    state left behind on long-lived objects (one parser object called many times, module-level
+    grammar objects, one grammar after another) reproducible from a descriptor ("prior" operations,
+    "history" of the unit) instead of ending as 'does not reproduce'."""
+    r, w = os.pipe()
+    pid = os.fork()
+    if pid == 0:
+        status = 1
+        try:
+            os.close(r)
             try:
-                with cpu_guard():
-                    parser = build(t)
-                    for k, (via, s) in enumerate(ops):
-                        if via == "process":
-                            got = run_process(parser, s)
-                            ok = agree(exps[s], got)
-                        else:
-                            got = run_call(parser, s)
-                            ok = agree(exps[s], got, False)
-                        if not ok:
-                            pending.append(k)
-                            if got is HANG:
-                                hung = True
-                                break       # do not burn the budget on every input of a looping term
-            except BudgetExceeded:
-                hung = True
-                if k not in pending:
-                    pending.append(k)
-            for e in set(-1 if e is FAILV else e[0] for e in exps.values()):
-                res.outcomes.add(t[0] + ":F" if e < 0 else "%s:ok%d" % (t[0], e))
-            for n, k in enumerate(pending):
-                # the (expensive) variants with earlier operations are tried for the first few disagreements only
-                _report_term(res, t, ops, k, dict(hist, index=ti) if n < 4 else None, deep=n < 4)
-            if hung:
-                hangs += 1
-                if hangs >= MAX_HANGS_PER_UNIT:
-                    res.exhaustive = False
-                    res.notes.append("a terms unit was abandoned after %d non-terminating terms" % hangs)
-                    break
-        res.maxi("max_process_calls_in_a_completed_parse", _MAX_STEPS[0])
-        lo_t = terms[unit["lo"]]
-        res.samples.append({"kind": "term", "term": lo_t, "input": "abA", "via": "process"})
-        return res
+                payload = pickle.dumps(("ok", fn(*args)))
+            except BaseException:
+                payload = pickle.dumps(("error", traceback.format_exc()))
+            with os.fdopen(w, "wb") as fh:
+                fh.write(payload)
+            status = 0
+        finally:
+            os._exit(status)
+    os.close(w)
+    with os.fdopen(r, "rb") as fh:
+        data = fh.read()
+    os.waitpid(pid, 0)
+    if not data:
+        raise RuntimeError("C19: a child process died without a result")
+    status, out = pickle.loads(data)
+    if status != "ok":
+        raise RuntimeError("C19: failure in a child process:\n" + out)
+    return out
 
-    if part == "xref":
-        terms = all_terms(b["term_nodes"])
-        top = b["term_nodes"]
-        for ti in range(unit["lo"], unit["hi"]):
-            t = terms[ti]
-            size = term_size(t)
-            ext = id(t) in _EXT_IDS
-            full = size < top if not ext else size <= b["xref_ext_full"]
-            for s in (INPUTS_NL if has_kind(t, "mark") else INPUTS):
-                if not full and len(s) > SHORT:
-                    continue
-                a = peg.evaluate(t, s)
-                c = peg.tabular(t, s)
-                if (a is peg.LOOP) != (c is peg.LOOP) or a != c or repr(a) != repr(c):
-                    raise RuntimeError("C19 reference interpreters disagree on %r %r: direct %r, tabular %r" % (t, s, a, c))
-                res.stat("reference_cross_checked_pairs", 1)
-        return res
 
+def _class_open(res, clause, feats):
+    """True while the Result still keeps violations of this (clause, features) class (first 3)."""
+    key = (clause, canon_json(feats or {}))
+    return sum(1 for w in res.violations if (w["clause"], canon_json(w.get("features") or {})) == key) < 3
+
+
+def _not_reproduced(res, n=1):
+    res.stat("disagreements_not_reproduced_from_a_descriptor_and_not_recorded", n)
+    note = "some disagreements did not reproduce from a case descriptor in a pristine process and were not recorded (see counters)"
+    if note not in res.notes:
+        res.notes.append(note)
+
+
+def run_unit(unit, tier):
+    if unit["part"] == "xref":          # reference interpreters only
+        return _xref_unit(unit, tier)
+    P()                                 # the library is imported before any fork; no parser ever runs in this process
+    res = Result()
+    if unit["part"] == "terms":
+        d, pending = _in_child(_terms_hot, unit, tier)
+        res.merge_dict(d)
+        _decide_terms(res, unit, tier, pending)
+    else:
+        d, candidates = _in_child(_stream_hot, unit, tier)
+        res.merge_dict(d)
+        _decide_stream(res, unit, tier, candidates)
+    return res
+
+
+# ---- terms ---------------------------------------------------------------------------------------
+
+def _terms_hot(unit, tier):
+    """The hot loop: every term of the unit, one parser object each, through its whole schedule.
+    Nothing but the schedule runs here (re-deciding a disagreement would disturb the very history it
+    may depend on); disagreements are returned as (term index, operation index)."""
+    res = Result()
+    b = BOUNDS[tier]
+    terms = all_terms(b["term_nodes"])
+    FAILV = peg.FAIL
+    budget_ctx()                        # imports happen outside the CPU guard
+    pending = []
+    hangs = 0
+    for ti in range(unit["lo"], unit["hi"]):
+        t = terms[ti]
+        size = term_size(t)
+        res.maxi("term_nodes_completed", size)
+        ops, exps, absorbed, skipped = schedule(t, size, tier)
+        if skipped:
+            res.stat("pairs_skipped_repetition_over_nonconsuming", skipped)
+        if id(t) in _EXT_IDS:
+            res.stat("terms_with_extended_symbols", 1)
+        res.evals += len(exps)
+        res.nontrivial += sum(1 for s in exps if s and absorbed[s])
+        ncall = sum(1 for o in ops if o[0] == "call")
+        res.stat("call_evaluations", ncall)
+        res.stat("second_pass_evaluations", len(ops) - len(exps) - ncall)
+        hung = False
+        k = 0
+        mine = []
+        try:
+            with cpu_guard():
+                parser = build(t)
+                for k, (via, s) in enumerate(ops):
+                    if via == "process":
+                        got = run_process(parser, s)
+                        ok = agree(exps[s], got)
+                    else:
+                        got = run_call(parser, s)
+                        ok = agree(exps[s], got, False)
+                    if not ok:
+                        mine.append(k)
+                        if got is HANG:
+                            hung = True
+                            break       # do not burn the budget on every input of a looping term
+        except BudgetExceeded:
+            hung = True
+            if k not in mine:
+                mine.append(k)
+        pending.extend((ti, k) for k in mine)
+        for e in set(-1 if e is FAILV else e[0] for e in exps.values()):
+            res.outcomes.add(t[0] + ":F" if e < 0 else "%s:ok%d" % (t[0], e))
+        if hung:
+            hangs += 1
+            if hangs >= MAX_HANGS_PER_UNIT:
+                res.exhaustive = False
+                res.notes.append("a terms unit was abandoned after %d non-terminating terms" % hangs)
+                break
+    res.maxi("max_process_calls_in_a_completed_parse", _MAX_STEPS[0])
+    res.samples.append({"kind": "term", "term": terms[unit["lo"]], "input": "abA", "via": "process"})
+    return res.to_dict(), pending
+
+
+def _check_many(cases):
+    return [check_term_case(c) for c in cases]
+
+
+MAX_REDECIDED_WITH_HISTORY = 4      # per unit: disagreements that need "prior" / "history" to reproduce
+
+
+def _decide_terms(res, unit, tier, pending):
+    """Every disagreement of the hot loop is re-decided from a case descriptor: (1) on a freshly built
+    parser - all of them in one child; those that open a new (clause, features) class once more ALONE in
+    a pristine child, which is what the runner's fresh-interpreter confirmation will do; (2) the first few
+    that do not reproduce that way: after the operations that preceded them on the same parser object;
+    (3) after the earlier grammars of the unit.  The first variant that reproduces is recorded."""
+    if not pending:
+        return
+    terms = all_terms(BOUNDS[tier]["term_nodes"])
+    sched = {}
+    cases = []
+    for ti, k in pending:
+        if ti not in sched:
+            sched[ti] = schedule(terms[ti], term_size(terms[ti]), tier)[0]
+        via, s = sched[ti][k]
+        cases.append({"kind": "term", "term": terms[ti], "input": s, "via": via})
+    fresh = _in_child(_check_many, cases)
+    left = []
+    for (ti, k), case, vio in zip(pending, cases, fresh):
+        if vio and any(_class_open(res, c, f) for c, _, _, f in vio):
+            vio = _in_child(check_term_case, case)       # alone, pristine
+        if not vio:
+            left.append((ti, k))
+            continue
+        for c, e, o, f in vio:
+            res.violation(c, case, e, o, f)
+    for n, (ti, k) in enumerate(left):
+        if n >= MAX_REDECIDED_WITH_HISTORY:
+            res.stat("disagreements_beyond_the_first_%d_per_unit_that_need_a_history_not_redecided" % MAX_REDECIDED_WITH_HISTORY,
+                     len(left) - n)
+            break
+        via, s = sched[ti][k]
+        prior = [list(o) for o in sched[ti][:k]]
+        found = False
+        for extra in ({"prior": prior}, {"prior": prior, "history": {"tier": tier, "lo": unit["lo"], "index": ti}}):
+            if not extra["prior"] and "history" not in extra:
+                continue
+            case = {"kind": "term", "term": terms[ti], "input": s, "via": via}
+            case.update((key, val) for key, val in extra.items() if val)
+            vio = _in_child(check_term_case, case)
+            for c, e, o, f in vio:
+                res.violation(c, case, e, o, f)
+            if vio:
+                found = True
+                break
+        if not found:
+            _not_reproduced(res)
+
+
+# ---- case streams (json, jsonx, jsonedit, taglang, tagx, tagedit) ----------------------------------
+
+def stream_cases(unit, tier):
+    """The cases of a unit in execution order: (case, nontrivial, outcome prefix, stat increments)."""
+    part = unit["part"]
     if part in ("json", "jsonx"):
         vals = j_values(tier) if part == "json" else j_extra_values(tier)
         entries = ("loads",) if part == "json" else ("loads", "load")
-        hangs = 0
         for vi in range(unit["lo"], unit["hi"]):
             v = vals[vi]
             for how in J_RENDERINGS:
@@ -1361,45 +1497,16 @@ def run_unit(unit, tier):
                     case = {"kind": "json", "value": v, "render": how}
                     if entry != "loads":
                         case["entry"] = entry
-                    vio = check_json_case(case)
-                    res.case(nontrivial=j_is_deep(v), outcome="%s:%s:%s" % (part, how, vio[0][0] if vio else "agree"))
-                    for c, e, o, f in vio:
-                        res.violation(c, case, e, o, f)
-                        hangs += c.endswith(":terminates")
-            if hangs >= MAX_HANGS_PER_UNIT:
-                res.exhaustive = False
-                res.notes.append("a json unit was abandoned after %d non-terminating documents" % hangs)
-                break
-        res.samples.append({"kind": "json", "value": vals[unit["lo"]], "render": "indent"})
-        return res
-
-    if part == "jsonedit":
+                    yield case, j_is_deep(v), "%s:%s" % (part, how), None
+    elif part == "jsonedit":
         bases = j_edit_bases(tier)
-        hangs = 0
         for vi in range(unit["lo"], unit["hi"]):
-            v = bases[vi]
-            for edit in j_edits(v):
-                case = {"kind": "jsonedit", "value": v, "edit": edit}
-                vio = check_json_edit_case(case)
-                res.case(nontrivial=True, outcome="jsonedit:%s:%s" % (edit[0], vio[0][0] if vio else "agree"))
-                for c, e, o, f in vio:
-                    res.violation(c, case, e, o, f)
-                    hangs += c.endswith(":terminates")
-            if hangs >= MAX_HANGS_PER_UNIT:
-                res.exhaustive = False
-                res.notes.append("a jsonedit unit was abandoned after %d non-terminating documents" % hangs)
-                break
-        res.samples.append({"kind": "jsonedit", "value": bases[unit["lo"]], "edit": ["ins", 1]})
-        return res
-
-    if part in ("taglang", "tagx"):
+            for edit in j_edits(bases[vi]):
+                yield {"kind": "jsonedit", "value": bases[vi], "edit": edit}, True, "jsonedit:" + edit[0], None
+    elif part in ("taglang", "tagx"):
         asts = t_all(tier) if part == "taglang" else t_extra_asts(tier)
-        hangs = 0
+        nsets = len(TX_TAGSETS if part == "tagx" else TAGSETS)
         for ai in range(unit["lo"], unit["hi"]):
-            if hangs >= MAX_HANGS_PER_UNIT:
-                res.exhaustive = False
-                res.notes.append("a taglang unit was abandoned after %d non-terminating expressions" % hangs)
-                break
             a = asts[ai]
             lv = t_levels(a)
             for n, (opts, _txt) in enumerate(t_renderings(a)):
@@ -1408,81 +1515,129 @@ def run_unit(unit, tier):
                     case["universe"] = "x"
                 if (ai + n) % 2:             # both documented ways of asking, alternating over the cases
                     case["how"] = "test-set"
-                vio = check_tag_case(case)
-                res.case(nontrivial=len(lv) >= 2,
-                         outcome="%s:%s:%s" % (part, "".join(sorted(x[0] for x in lv)), vio[0][0] if vio else "agree"))
-                res.stat("tagset_evaluations", len(TX_TAGSETS if part == "tagx" else TAGSETS))
-                for c, e, o, f in vio:
-                    res.violation(c, case, e, o, f)
-                    hangs += c.endswith(":terminates")
-        res.samples.append({"kind": "tag", "ast": asts[unit["lo"]], "full_parens": False, "spaced": True})
-        return res
-
-    if part == "tagedit":
+                yield case, len(lv) >= 2, "%s:%s" % (part, "".join(sorted(x[0] for x in lv))), ("tagset_evaluations", nsets)
+    elif part == "tagedit":
         for case in t_edit_cases(tier):
-            vio = check_tag_edit_case(case)
-            res.case(nontrivial=True, outcome="tagedit:%s" % (vio[0][0] if vio else "agree"))
-            for c, e, o, f in vio:
-                res.violation(c, case, e, o, f)
-        res.samples.append({"kind": "tagedit", "text": "a &"})
-        return res
-    raise ValueError(part)
+            yield case, True, "tagedit", None
+    else:
+        raise ValueError(part)
 
 
-def _report_term(res, t, ops, k, hist, deep):
-    """Slow path after a disagreement in the hot loop.  The recorded case must replay from its
-    descriptor alone, so the disagreement is re-decided (1) on a freshly built parser, (2) after the
-    operations that preceded it on the same parser object, (3) after the earlier grammars of the unit in
-    the same process - the first variant that reproduces it is recorded."""
-    via, s = ops[k]
-    variants = [{}]
-    if deep and k:
-        variants.append({"prior": [list(o) for o in ops[:k]]})
-    if hist:
-        variants.append({"prior": [list(o) for o in ops[:k]], "history": hist})
-    for extra in variants:
-        case = {"kind": "term", "term": t, "input": s, "via": via}
-        case.update((key, val) for key, val in extra.items() if val)
-        vio = check_term_case(case)
+CHECKERS = {}
+
+
+def check_stream_case(case):
+    h = case.get("history")
+    if h:
+        # the earlier cases of the unit first, in this process (state on the module-level grammar objects)
+        for n, (c, _, _, _) in enumerate(stream_cases(h["unit"], h["tier"])):
+            if n >= h["count"]:
+                break
+            CHECKERS[c["kind"]](c)
+    return CHECKERS[case["kind"]](case)
+
+
+def _stream_hot(unit, tier):
+    """All cases of the unit, in order, in one process (the module-level grammar objects are long-lived:
+    thousands of documents go through the same objects).  Returns the Result and, for every violation the
+    Result keeps, its position in the stream."""
+    res = Result()
+    hangs = 0
+    candidates = []
+    sample = None
+    for n, (case, nontrivial, prefix, stat) in enumerate(stream_cases(unit, tier)):
+        if sample is None:
+            sample = case
+        vio = CHECKERS[case["kind"]](case)
+        res.case(nontrivial=nontrivial, outcome="%s:%s" % (prefix, vio[0][0] if vio else "agree"))
+        if stat:
+            res.stat(stat[0], stat[1])
         for c, e, o, f in vio:
+            if _class_open(res, c, f):
+                candidates.append((n, c, case, e, o, f))
+            else:
+                res.violation(c, case, e, o, f)           # counted; the class already has its kept examples
+            hangs += c.endswith(":terminates")
+        if hangs >= MAX_HANGS_PER_UNIT:
+            res.exhaustive = False
+            res.notes.append("a %s unit was abandoned after %d non-terminating cases" % (unit["part"], hangs))
+            break
+    if sample is not None:
+        res.samples.append(sample)
+    return res.to_dict(), candidates
+
+
+def _decide_stream(res, unit, tier, candidates):
+    """A violation that would be kept (and later replayed by the runner) is first reproduced ALONE in a
+    pristine child; if it only shows after the earlier cases of the unit, the recorded case carries that
+    history; if neither reproduces it, it is not recorded."""
+    for n, c, case, e, o, f in candidates:
+        if not _class_open(res, c, f):
             res.violation(c, case, e, o, f)
-        if vio:
-            return
-    res.stat("disagreements_not_reproduced_from_a_descriptor_and_not_recorded", 1)
-    note = "some hot-loop disagreements did not reproduce from a case descriptor and were not recorded (see counters)"
-    if note not in res.notes:
-        res.notes.append(note)
+            continue
+        vio = _in_child(check_stream_case, case)
+        use = case
+        if not any(c2 == c for c2, _, _, _ in vio) and n:
+            use = dict(case, history={"unit": unit, "tier": tier, "count": n})
+            vio = _in_child(check_stream_case, use)
+        hit = [v for v in vio if v[0] == c]
+        if hit:
+            c2, e2, o2, f2 = hit[0]
+            if use is not case:
+                f2 = dict(f2, after_earlier_cases_on_the_same_grammar_object=True)
+            res.violation(c2, use, e2, o2, f2)
+        else:
+            _not_reproduced(res)
+
+
+def _xref_unit(unit, tier):
+    res = Result()
+    b = BOUNDS[tier]
+    terms = all_terms(b["term_nodes"])
+    top = b["term_nodes"]
+    for ti in range(unit["lo"], unit["hi"]):
+        t = terms[ti]
+        size = term_size(t)
+        ext = id(t) in _EXT_IDS
+        full = size < top if not ext else size <= b["xref_ext_full"]
+        for s in (INPUTS_NL if has_kind(t, "mark") else INPUTS):
+            if not full and len(s) > SHORT:
+                continue
+            a = peg.evaluate(t, s)
+            c = peg.tabular(t, s)
+            if (a is peg.LOOP) != (c is peg.LOOP) or a != c or repr(a) != repr(c):
+                raise RuntimeError("C19 reference interpreters disagree on %r %r: direct %r, tabular %r" % (t, s, a, c))
+            res.stat("reference_cross_checked_pairs", 1)
+    return res
 
 
 def replay(case):
     kind = case.get("kind")
     if kind == "term":
         vio = check_term_case(case)
-    elif kind == "json":
-        vio = check_json_case(case)
-    elif kind == "jsonedit":
-        vio = check_json_edit_case(case)
-    elif kind == "tag":
-        vio = check_tag_case(case)
-    elif kind == "tagedit":
-        vio = check_tag_edit_case(case)
+    elif kind in CHECKERS:
+        vio = check_stream_case(case)
     else:
         raise ValueError(kind)
     return [{"clause": c, "case": case, "expected": e, "observed": o, "features": f} for c, e, o, f in vio]
 
 
-TECHNIQUE = ("bounded exhaustive enumeration of grammar terms x inputs (stateless exploration of the real combinators) "
-             "against a reference PEG interpreter; exhaustive JSON values vs json.loads; exhaustive tag expressions vs "
-             "Boolean evaluation")
+CHECKERS.update({"json": check_json_case, "jsonedit": check_json_edit_case, "tag": check_tag_case, "tagedit": check_tag_edit_case})
+
+
+TECHNIQUE = ("bounded exhaustive enumeration of grammar terms x inputs (stateless exploration of the real combinators, one "
+             "long-lived parser object per term) against a reference PEG interpreter; exhaustive JSON values and single-token "
+             "edits vs json.loads; exhaustive tag expressions vs Boolean evaluation")
 LEVEL_TEXT = ("Every grammar term with <= 4 (quick) / <= 5 (thorough) nodes over all listed combinators, built with the "
-              "real operators, is run on every input of length <= 4 over {a,b,A} and compared with a reference PEG "
-              "interpreter on accept/reject, end position and value, under a step budget so that non-termination is a "
-              "reported divergence. The shipped JSON grammar is compared with json.loads on every value of depth <= 3 in "
-              "four whitespace renderings, the tag language with Boolean evaluation on every AST of depth <= 3 and all 8 "
-              "tag sets. The statement decided is 'no counterexample within the bound'; compositional errors (look-ahead "
-              "inside repetition, choice under sequence after backtracking) live at small term sizes, which is why "
+              "real operators, is run on every input of length <= 4 over {a,b,A} through process() and __call__ and compared "
+              "with a reference PEG interpreter on accept/reject, end position and value, under a step budget so that "
+              "non-termination is a reported divergence. The shipped JSON grammar is compared with json.loads on every value "
+              "of depth <= 3 in four whitespace renderings and on every single-token edit of the depth <= 2 documents, the "
+              "tag language with Boolean evaluation on every AST of depth <= 3 and 11 tag sets. The statement decided is 'no "
+              "counterexample within the bound'; compositional errors (look-ahead inside repetition, choice under sequence "
+              "after backtracking, a failed Lift/Map alternative leaving a trace) live at small term sizes, which is why "
               "exhaustive small scope is the right level here.")
 LEVEL_NOTE = ("Trusted: ref/c19_peg.py (cross-checked against a bottom-up tabular formulation in every run), json.loads, "
               "the precedence stated in taglang's docstring. Not covered: StartTagName/EndTagName/WithIndent/HangingString "
               "side stacks, Map/Lift functions raising something other than Backtrack, JSON escapes other than \\\", "
-              "documents json.loads rejects.")
+              "leading zeros / single quotes / non-ASCII in JSON, the text of error messages.")
